@@ -10,7 +10,7 @@
       theorem iter_eq_spec (a : Args) (r : Rule) (h : construct a = .ok r) (hs : Supported a) (n : Nat)
           (hn : the first n periods lie inside 0001..9999) : (iter r n).1 = Spec.RRule.occ a n
 
-  with `Supported` = the negation of the known defect classes D-C01a/c/d/e/f.  What is proved of it
+  with `Supported` = the negation of the known defect classes D-C01a/c/d/e.  What is proved of it
   here is `iter_eq_spec_daily_partial`, `iter_eq_spec_weekly_partial` and
   `iter_eq_spec_yearly_monthly_partial`: the four calendar frequencies DAILY, WEEKLY, MONTHLY, YEARLY
   with any INTERVAL ≥ 1, BYMONTH, BYMONTHDAY, BYYEARDAY, plain BYDAY (any BYDAY for DAILY / WEEKLY,
@@ -37,6 +37,7 @@ import DateutilVerif.Proofs.RRuleNthYearly
 import DateutilVerif.Proofs.RRuleNthYM
 import DateutilVerif.Proofs.RRuleEasterYearly
 import DateutilVerif.Proofs.RRuleWeekno
+import DateutilVerif.Proofs.RRuleOrig
 
 namespace C01
 open RRule Cal RRule.Tables
@@ -171,6 +172,19 @@ theorem construct_ValueError (a : Args) :
       construct a = .error .ValueError) :=
   ⟨fun l p hl hp hb => construct_bysetpos_ValueError a l p hl hp hb,
    fun l hf hl hsp hx => construct_byhour_unreachable a l hf hl hsp hx⟩
+
+/-- **the constructor is idempotent on what it records**: `origArgs a r` is the model of
+    `self._original_rule` plus the scalar attributes that `replace()` and `__str__` read (checked
+    against the real object by the `rrule.orig` op); constructing from it gives the same rule, field
+    for field, time set included.  C12 (`replace`) and C13 (`str` round trip) lean on this.  The one
+    excluded input is the literal `bysetpos=()`: stored as `()`, not recorded, rebuilt as `None`. -/
+theorem construct_origArgs (a : Args) (r : Rule) (h : construct a = .ok r) (hsp : a.bysetpos ≠ some []) :
+    construct (origArgs a r) = .ok r := RRule.construct_origArgs a r h hsp
+
+/-- … and that exclusion is real: `bysetpos=()` is not reproduced -/
+example : (do let r ← construct { freq := 3, dtstart := ⟨2000, 1, 1, 0, 0, 0, 0⟩, bysetpos := some [] }
+              let r' ← construct (origArgs { freq := 3, dtstart := ⟨2000, 1, 1, 0, 0, 0, 0⟩, bysetpos := some [] } r)
+              pure (r.bysetpos, r'.bysetpos)) = .ok (some [], none) := by decide +kernel
 
 /-! ### 3. every rule, every fuel: start / until / count, whole seconds -/
 
@@ -454,8 +468,8 @@ example : dates (construct { freq := 2, dtstart := dt 2020 1 1, byweekday := som
 example : (Spec.RRule.occ { freq := 2, dtstart := dt 2020 1 1, byweekday := some [(0, 0), (4, 0)],
                             bysetpos := some [1] } 2).map (fun t => t.toDT.d) = [6] := by decide +kernel
 
--- D-C01f: BYWEEKNO with a start in year 1 (wkst=WE): ValueError from date(0, 1, 1)
-example : (match construct { freq := 0, dtstart := dt 1 12 31, wkst := some 2, byweekno := some [26] } with
-           | .ok r => (iter r 1).2 | .error e => .error e) = .error .ValueError := by decide +kernel
+-- former D-C01f (fixed in /repo): BYWEEKNO with a start in year 1 (wkst=WE) no longer raises
+example : dates (construct { freq := 0, dtstart := dt 1 12 31, wkst := some 2, byweekno := some [26], count := some 1 }) 2
+    = [(2, 6, 26)] := by decide +kernel
 
 end C01
